@@ -178,6 +178,7 @@ let dec_chunk v =
   | 0 :: l -> Ch (nl l, false)
   | 1 :: l -> Ch (nl l, true)
   | [2] -> ChErr
+  | 3 :: l -> cond_chunk (List.map (fun e -> (n_of_int (e / 4), n_of_int (e mod 4))) l)
   | _ -> failwith "chunk"
 let kind3 id op streams vals failed =
   let css = List.map (fun s -> List.map dec_chunk (as_list s)) (as_list streams) in
